@@ -20,6 +20,11 @@ SIGS = [
     (((0, 0), 1, 0),),
     (((2, 0), 1, 1), ((0, 1), 2, 0), ((1, 1), 0, 1)),
     (((0, 0), 3, 1), ((1, 0), 1, 0)),                        # three dynamic channels: channel-major / time-major interleaving
+    # shape twins: two types whose blocks have the SAME shape (channels x pixels x components) but a different split into
+    # dynamic channels and constant fields -- at past = 1, 2, 3 respectively (anything keyed on the block shape confuses them)
+    (((0, 0), 3, 0), ((0, 1), 1, 2)),
+    (((0, 0), 2, 0), ((0, 1), 1, 2)),
+    (((1, 0), 1, 0), ((1, 1), 0, 3)),
 ]
 
 
@@ -133,6 +138,16 @@ def main(tier):
         chk.traces += n
         for f in fails:
             chk.report(f["key"], payload=f)
+    # history pass: the same behaviours once more, all in ONE process each way round (forwards / backwards, ordered so that
+    # equal block shapes with different roles follow each other): a rollout must not depend on the rollouts run before it
+    hist = sorted([c for c in cases if c["nsteps"] == min(x["nsteps"] for x in cases)],
+                  key=lambda c: (c["past"], sorted(cd * c["past"] + nc for _, cd, nc in c["sig"]), core.chash(c["sig"])))
+    for fails, n in core.pmap(replay_chunk, [hist, hist[::-1]]):
+        chk.evaluations += n
+        for f in fails:
+            f["key"]["pass"] = "history (one process, %d rollouts in sequence)" % len(hist)
+            chk.report(f["key"], payload=f)
+    chk.extra["history_pass"] = {"rollouts_in_one_process": len(hist), "orders": 2}
     for c in cases:
         if c["past"] > 1 or any(s[2] > 0 for s in c["sig"]) or len(c["sig"]) > 1:
             chk.distinct.add(core.chash([c["sig"], c["past"], c["nsteps"], c["model"], c["ord"]]))
